@@ -22,6 +22,17 @@ DeepSame(a, b) ==
     ELSE IF IsNum(a) THEN b.k \in {"fin", "inf", "nan"} /\ Same(a, Canon(b))
     ELSE FALSE
 
+\* the same, but with the two zeros identified (the sign of an exact cancellation under RTN is open)
+RECURSIVE DeepSameZ(_, _)
+DeepSameZ(a, b) ==
+    IF a.k \in {"list", "tuple"} THEN
+        b.k = a.k /\ Len(a.v) = Len(b.v) /\ \A i \in 1..Len(a.v) : DeepSameZ(a.v[i], b.v[i])
+    ELSE IF a.k = "bool" THEN b.k = "bool" /\ a.b = b.b
+    ELSE IF a.k = "ctx" THEN b.k = "ctx" /\ a.c = b.c
+    ELSE IF a.k = "big" THEN b.k = "big" /\ a.s = b.s /\ a.n = b.n /\ a.d = b.d
+    ELSE IF IsNum(a) THEN b.k \in {"fin", "inf", "nan"} /\ SameVal(a, Canon(b))
+    ELSE FALSE
+
 Skippable(e) == e \in {"Unsupported", "OutOfDomain", "Undefined"}
 
 RunVerdict ==
@@ -30,7 +41,8 @@ RunVerdict ==
         (IF Skippable(result.e) THEN "skip"
          ELSE IF "err" \in DOMAIN out THEN "ok" ELSE "missing-error")
     ELSE IF "err" \in DOMAIN out THEN "code-raised"
-    ELSE IF DeepSame(result, out.val) THEN "ok" ELSE "value"
+    ELSE IF DeepSame(result, out.val) THEN "ok"
+    ELSE IF DeepSameZ(result, out.val) THEN "value-zero-sign" ELSE "value"
 
 Judge ==
     /\ status \in {"done", "err"}
